@@ -29,8 +29,60 @@ fn invalid_project(rng: &mut Rng) -> (Files, &'static str, Option<&'static str>)
     let mut files = Files::new();
     let nerr = 2 + rng.below(5);
     let names = ["Foo", "Bar", "Baz", "Qux", "Nope", "Zed", "Abc"];
-    let kind = rng.below(8);
+    let kind = rng.below(13);
     match kind {
+        8 => {
+            // several unknown fields in ONE blob instantiation
+            let mut t = String::from("A :: blob {\n    ok: int,\n}\n\nstart :: fn do\n    a := A {\n        ok: 1,\n");
+            for k in 0..nerr {
+                t.push_str(&format!("        {}: {},\n", ["zeta", "height", "width", "alpha", "mid", "omega"][k % 6], k));
+            }
+            t.push_str("    }\nend\n");
+            files.insert("main.sy".into(), t);
+            (files, "several unknown fields in one blob instantiation", None)
+        }
+        9 => {
+            // several missing fields in ONE blob instantiation
+            let mut t = String::from("A :: blob {\n");
+            for k in 0..nerr {
+                t.push_str(&format!("    {}: int,\n", ["zeta", "height", "width", "alpha", "mid", "omega"][k % 6]));
+            }
+            t.push_str("}\n\nstart :: fn do\n    a := A {}\nend\n");
+            files.insert("main.sy".into(), t);
+            (files, "several missing fields in one blob instantiation", None)
+        }
+        10 => {
+            // case without else that misses several variants / lists several unknown ones
+            let mut t = String::from("E :: enum\n");
+            for k in 0..nerr {
+                t.push_str(&format!("    {},\n", ["Zeta", "Height", "Width", "Alpha", "Mid", "Omega"][k % 6]));
+            }
+            t.push_str("end\n\nstart :: fn do\n    e := E.Zeta\n    case e do\n");
+            if rng.chance(1, 2) {
+                t.push_str("        Zeta -> end\n");
+            } else {
+                t.push_str("        Zeta -> end\n        Nope1 -> end\n        Another -> end\n        Third -> end\n");
+            }
+            t.push_str("    end\nend\n");
+            files.insert("main.sy".into(), t);
+            (files, "case with several missing or unknown variants", None)
+        }
+        11 => {
+            // several wrong arguments in one call
+            let t = "f :: fn a: int, b: int, c: int, d: int do\nend\n\nstart :: fn do\n    f(\"a\", \"b\", 1.0, true)\n    f(1, 2)\nend\n".to_string();
+            files.insert("main.sy".into(), t);
+            (files, "several wrong arguments in one call", None)
+        }
+        12 => {
+            // several imports of missing files + names
+            let mut t = String::new();
+            for k in 0..nerr {
+                t.push_str(&format!("from gone{} use (a{}, b{})\n", k, k, k));
+            }
+            t.push_str("start :: fn do\nend\n");
+            files.insert("main.sy".into(), t);
+            (files, "several missing imports", None)
+        }
         0 => {
             // several unknown field types in ONE blob
             let mut t = String::from("A :: blob {\n");
